@@ -177,6 +177,10 @@ func (c *ExpressionParser) matchTokensWithTypes(types ...int) bool {
 			matches = false
 			break
 		}
+		// Every token of the sequence must match, not only the last one
+		if !matches {
+			break
+		}
 	}
 
 	if matches {
